@@ -10,8 +10,10 @@ class Artifacts:
     Parameters:
       minlen (int) : the minimal length of the components to keep.
     """
-    for cc in filter(lambda c: sum([self.segment(sn).try_get_length() \
-                     for sn in c]) < minlen, self.connected_components()):
+    # (the components to remove are determined before any is removed)
+    small = list(filter(lambda c: sum([self.segment(sn).try_get_length() \
+                        for sn in c]) < minlen, self.connected_components()))
+    for cc in small:
       for s in cc:
         # (a placeholder segment goes away with the last line referring to it)
         if s.is_connected():
@@ -31,6 +33,9 @@ class Artifacts:
     Parameters:
       minlen (int) : the minimal length of an end to keep.
     """
+    for s in self.segments:
+      # (a segment of unknown length is reported before any is removed)
+      s.try_get_length()
     for s in self.segments:
       c = s._connectivity()
       if s.try_get_length() < minlen and \
